@@ -2,6 +2,7 @@ package sim
 
 import (
 	"math"
+	"unsafe"
 
 	"github.com/woodsbury/decimal128"
 )
@@ -57,6 +58,15 @@ func (op *Op) bytes(i int) []byte {
 		return nil
 	}
 	return unhex(op.B[i])
+}
+
+func span(b []byte) (lo, hi uintptr) {
+	if cap(b) == 0 {
+		return 0, 0
+	}
+	b = b[:cap(b)]
+	lo = uintptr(unsafe.Pointer(&b[0]))
+	return lo, lo + uintptr(len(b))
 }
 
 func isNaNBits(d D) bool  { hi, _ := Bits(d); return hi>>58&0x1f == 0x1f }
@@ -266,6 +276,22 @@ func init() {
 					full[i] = 0xEE
 				}
 				kp.scribbled = true
+				// everything else the task holds in the same backing array
+				// (earlier appends into the same buffer) is gone as well
+				lo, hi := span(full)
+				for _, res := range x.results {
+					if res == nil {
+						continue
+					}
+					for _, other := range res.keeps {
+						if other.bytes != nil {
+							l2, h2 := span(other.bytes[:cap(other.bytes)])
+							if l2 < hi && lo < h2 {
+								other.scribbled = true
+							}
+						}
+					}
+				}
 			}
 		}
 	})
